@@ -84,3 +84,22 @@ def has_foldable_more_indented_line(text):
         if l.startswith(" ") and l.strip(" ") != "":
             return True
     return False
+
+
+def shorthand_with_flow_indicator(events):
+    """True when some node event of the stream carries a tag that an emitter writes as a shorthand (handle + suffix) whose
+    suffix contains ',', '[' or ']' - LibYAML 0.2.5 writes these raw and its own scanner rejects them in a shorthand."""
+    prefixes = {}
+    for e in events:
+        name = type(e).__name__
+        if name == "DocumentStartEvent":
+            prefixes = {"!": "!", "tag:yaml.org,2002:": "!!"}
+            for h, pfx in (getattr(e, "tags", None) or {}).items():
+                prefixes[pfx] = h
+        tag = getattr(e, "tag", None) if name in ("ScalarEvent", "SequenceStartEvent", "MappingStartEvent") else None
+        if not tag or tag == "!":
+            continue
+        for pfx in prefixes:
+            if tag.startswith(pfx) and (pfx == "!" or len(pfx) < len(tag)) and any(c in tag[len(pfx):] for c in ",[]"):
+                return True
+    return False
